@@ -940,7 +940,7 @@ func (c *c40Case) stepSettings(s c40Step) {
 	apply := func() {
 		for _, id := range c.order {
 			if st := c.streams[id]; !st.closed {
-				if delta > 0 && st.sendWin < 0 {
+				if delta >= 0 && st.sendWin < 0 {
 					c.negInc = true
 					c.flags["settings-increase-on-negative-window"] = true
 				}
@@ -1126,7 +1126,7 @@ func c40Run(tb ev.TB, rec *ev.Rec, script []c40Step) {
 
 func genC40Script(rt *rapid.T, maxSteps int) []c40Step {
 	n := rapid.IntRange(4, maxSteps).Draw(rt, "nSteps")
-	ops := []string{"syn", "syn", "syn", "data", "data", "data", "data", "read", "read", "read", "write", "write", "write", "finish", "wu", "wu", "settings", "rst", "ping"}
+	ops := []string{"syn", "syn", "syn", "data", "data", "data", "data", "data", "read", "read", "read", "read", "write", "write", "write", "finish", "wu", "wu", "settings", "rst", "ping"}
 	script := []c40Step{{Op: "syn", A: 0, B: rapid.IntRange(0, 7).Draw(rt, "firstFin"), C: rapid.IntRange(0, 2).Draw(rt, "firstGap")}}
 	for i := 1; i < n; i++ {
 		s := c40Step{Op: rapid.SampledFrom(ops).Draw(rt, "op")}
@@ -1135,9 +1135,15 @@ func genC40Script(rt *rapid.T, maxSteps int) []c40Step {
 		s.C = rapid.IntRange(0, 59).Draw(rt, "c")
 		s.D = rapid.IntRange(0, 1<<20).Draw(rt, "d")
 		if s.Op == "syn" {
-			// invalid ids end the session: keep them rarer than A's range suggests
-			s.A = rapid.IntRange(0, 9).Draw(rt, "synKind")
-			if s.A >= 8 && rapid.Bool().Draw(rt, "keepValid") {
+			// invalid even/lower ids end the session: keep them rare
+			switch k := rapid.IntRange(0, 39).Draw(rt, "synKind"); {
+			case k == 39:
+				s.A = 9
+			case k == 38:
+				s.A = 8
+			case k >= 34:
+				s.A = 7
+			default:
 				s.A = 0
 			}
 		}
